@@ -585,7 +585,8 @@ impl HelpTemplate<'_, '_> {
                 // Only account for ', --' + 4 after the val
                 TAB_WIDTH + 4
             };
-            let spcs = longest + padding - self_len;
+            // A short-only `Count` flag (`-v...`) is not part of `longest` and can be wider than it
+            let spcs = (longest + padding).saturating_sub(self_len).max(TAB_WIDTH);
             debug!(
                 "HelpTemplate::align_to_about: positional=false arg_len={self_len}, spaces={spcs}"
             );
